@@ -272,4 +272,414 @@ Proof.
     exists p. split; [auto|]. eapply grants_via_mono; eauto.
 Qed.
 
+
+(* ---- states from which the running continuation has been removed ---- *)
+Definition Base (D : list bytes) (s : st) (r : bool) : Prop :=
+  dead s = false /\ paused s = r /\ ak_ok s /\ conts s = (if r then [(None, KResume)] else []) /\
+  Forall (fun p => In p D) (inq s) /\ (r = false -> inq s = []) /\ auth_obj_ok D s /\ done_ok D s.
+
+Lemma base_inv D s r : Base D s r -> Inv D s.
+Proof.
+  intros (Hd & Hp & Hak & Hc & Hq & Hq0 & Ha & Hdn). split; auto.
+  - right. split; [exact Hd|]. destruct r; [apply ShRes0|apply ShIdle0]; auto.
+  - intros Hpf. apply Hq0. congruence.
+Qed.
+
+Definition upd (e : effect) (s : st) : st :=
+  let s1 := match e_ko e with Some o => set_key_opts o s | None => s end in
+  match e_co e with Some c => set_cert_opts (Some c) s1 | None => s1 end.
+
+Lemma upd_restr e s : opts_reset s -> (key_opts (upd e s), cert_opts (upd e s)) = restr_of e.
+Proof.
+  intros [Hk Hc]. unfold upd, restr_of. destruct (e_ko e), (e_co e); cbn; congruence.
+Qed.
+
+Lemma upd_noopts e s : e_ko e = None -> e_co e = None -> upd e s = s.
+Proof. intros H1 H2. unfold upd. rewrite H1, H2. reflexivity. Qed.
+
+Lemma upd_fields e s :
+  username (upd e s) = username s /\ complete (upd e s) = complete s /\ dead (upd e s) = dead s /\
+  auth (upd e s) = auth s /\ conts (upd e s) = conts s /\ ak_user (upd e s) = ak_user s /\
+  paused (upd e s) = paused s /\ inq (upd e s) = inq s /\ out (upd e s) = out s /\
+  completed_as (upd e s) = completed_as s.
+Proof. unfold upd. destruct (e_ko e), (e_co e); cbn; repeat split; reflexivity. Qed.
+
+Lemma apply_effect_eq e s :
+  apply_effect w e s =
+  match e_res e with
+  | RsSuccess => do_success (upd e s)
+  | RsFailure => do_failure w (upd e s)
+  | RsPkOk => emit RPkOk (upd e s)
+  | RsChangeReq => emit RChangeReq (upd e s)
+  | RsInfoReq n => emit (RInfoReq n) (upd e s)
+  | RsDie => die (upd e s)
+  end.
+Proof. reflexivity. Qed.
+
+Lemma dead_inv D s : done_ok D s -> auth s = None \/ complete s = false -> Inv D (die s).
+Proof.
+  intros Hd Hx. split; cbn; auto.
+  - left. auto.
+  - unfold done_ok in *. cbn. destruct (complete s); [|exact Hd].
+    destruct Hd as (H1 & H2 & H3 & H4). auto.
+Qed.
+
+Lemma die_inv D s : Inv D s -> Inv D (die s).
+Proof.
+  intros [Hs Hq Hq0 Ha Hd]. apply dead_inv; [exact Hd|].
+  unfold done_ok in Hd. destruct (complete s); [left; apply Hd|right; reflexivity].
+Qed.
+
+Ltac base_split := unfold Base; split; [|split; [|split; [|split; [|split; [|split; [|split]]]]]].
+
+Lemma apply_effect_inv D s r e a :
+  Base D s r -> auth s = Some a -> a_user a = username s ->
+  (a_kbd a = true -> e_ko e = None /\ e_co e = None) ->
+  opts_reset s -> complete s = false -> eff_ok D (username s) e ->
+  Inv D (apply_effect w e s).
+Proof.
+  intros (Hd & Hp & Hak & Hc & Hq & Hq0 & Ha & Hdn) Hau Hus Hkb Hor Hco Heff.
+  rewrite apply_effect_eq.
+  destruct (upd_fields e s) as (Fu & Fc & Fd & Fa & Fk & Fak & Fp & Fq & Fo & Fca).
+  unfold done_ok in Hdn. rewrite Hco in Hdn. destruct Hdn as [Hcs Hca].
+  unfold auth_obj_ok in Ha. rewrite Hau in Ha. destruct Ha as (_ & _ & Hakbd).
+  assert (Hak' : forall x y z v, ak_ok (set_completed_as x (set_complete y (set_auth z (set_out v (upd e s)))))).
+  { intros. unfold ak_ok in *. cbn. rewrite Fak, Fu. exact Hak. }
+  assert (Hak2 : forall z v, ak_ok (set_auth z (set_out v (upd e s)))).
+  { intros. unfold ak_ok in *. cbn. rewrite Fak, Fu. exact Hak. }
+  assert (Hak3 : forall v, ak_ok (set_out v (upd e s))).
+  { intros. unfold ak_ok in *. cbn. rewrite Fak, Fu. exact Hak. }
+  assert (Hobj : forall v, auth_obj_ok D (set_out v (upd e s))).
+  { intros. unfold auth_obj_ok. cbn. rewrite Fa, Hau, Fu, Fc. split; [exact Hus|]. split; [exact Hco|].
+    intros Hk. destruct (Hkb Hk) as [K1 K2]. rewrite (upd_noopts e s K1 K2). split; [apply Hakbd; exact Hk|exact Hor]. }
+  assert (Hdone : forall v, count_success v = count_success (out s) -> done_ok D (set_out v (upd e s))).
+  { intros v Hv. unfold done_ok. cbn. rewrite Fc, Hco, Fca, Hv. auto. }
+  destruct (e_res e) eqn:Er.
+  - (* success *)
+    apply base_inv with (r := r). unfold do_success, emit. base_split.
+    + cbn. congruence.
+    + cbn. congruence.
+    + apply Hak'.
+    + cbn. congruence.
+    + cbn. rewrite Fq. exact Hq.
+    + cbn. rewrite Fq. exact Hq0.
+    + unfold auth_obj_ok. cbn. exact I.
+    + unfold done_ok. cbn. rewrite Fo, Fca, Fu, Hcs, Hca. split; [reflexivity|]. split; [|split; reflexivity].
+      destruct (Heff Er) as (p & Hp1 & Hp2). exists p. split; [exact Hp1|]. cbn.
+      rewrite Fu. pose proof (upd_restr e s Hor) as Hr. inversion Hr as [[Hr1 Hr2]]. rewrite Hr1, Hr2.
+      exact Hp2.
+  - (* failure *)
+    apply base_inv with (r := r). unfold do_failure, emit. base_split.
+    + cbn. congruence.
+    + cbn. congruence.
+    + apply Hak2.
+    + cbn. congruence.
+    + cbn. rewrite Fq. exact Hq.
+    + cbn. rewrite Fq. exact Hq0.
+    + unfold auth_obj_ok. cbn. exact I.
+    + unfold done_ok. cbn. rewrite Fc, Hco, Fo, Fca. cbn. auto.
+  - (* PK_OK *)
+    apply base_inv with (r := r). unfold emit. base_split.
+    + cbn. congruence.
+    + cbn. congruence.
+    + apply Hak3.
+    + cbn. congruence.
+    + cbn. rewrite Fq. exact Hq.
+    + cbn. rewrite Fq. exact Hq0.
+    + apply Hobj.
+    + apply Hdone. cbn. rewrite Fo. reflexivity.
+  - (* CHANGEREQ *)
+    apply base_inv with (r := r). unfold emit. base_split.
+    + cbn. congruence.
+    + cbn. congruence.
+    + apply Hak3.
+    + cbn. congruence.
+    + cbn. rewrite Fq. exact Hq.
+    + cbn. rewrite Fq. exact Hq0.
+    + apply Hobj.
+    + apply Hdone. cbn. rewrite Fo. reflexivity.
+  - (* INFO_REQUEST *)
+    apply base_inv with (r := r). unfold emit. base_split.
+    + cbn. congruence.
+    + cbn. congruence.
+    + apply Hak3.
+    + cbn. congruence.
+    + cbn. rewrite Fq. exact Hq.
+    + cbn. rewrite Fq. exact Hq0.
+    + apply Hobj.
+    + apply Hdone. cbn. rewrite Fo. reflexivity.
+  - (* die *)
+    apply dead_inv.
+    + unfold done_ok. rewrite Fc, Hco, Fo, Fca. auto.
+    + right. rewrite Fc. exact Hco.
+Qed.
+
+
+(* a continuation of the current auth object is added to a Base state *)
+Lemma base_add_auth D s r t k c' :
+  Base D s r -> auth_ok D s k ->
+  conts c' = conts s ++ [(t, k)] ->
+  dead c' = dead s -> paused c' = paused s -> username c' = username s -> ak_user c' = ak_user s ->
+  auth c' = auth s -> complete c' = complete s -> key_opts c' = key_opts s -> cert_opts c' = cert_opts s ->
+  inq c' = inq s -> out c' = out s -> completed_as c' = completed_as s ->
+  Inv D c'.
+Proof.
+  intros (Hd & Hp & Hak & Hc & Hq & Hq0 & Ha & Hdn) Hok E1 E2 E3 E4 E5 E6 E7 E8 E9 E10 E11 E12.
+  assert (Hak' : ak_ok c') by (unfold ak_ok in *; rewrite E4, E5; exact Hak).
+  assert (Hok' : auth_ok D c' k).
+  { destruct Hok as (a & H1 & H2 & H3 & H4 & H5 & H6). exists a.
+    split; [congruence|]. split; [exact H2|]. split; [congruence|].
+    split; [unfold opts_reset in *; rewrite E8, E9; exact H4|]. split; [congruence|].
+    destruct k; try exact H6; rewrite ?E4, ?E5; exact H6. }
+  split.
+  - right. split; [congruence|]. rewrite Hc in E1. destruct r; cbn in E1.
+    + eapply ShRes2; eauto; congruence.
+    + eapply ShIdle1; eauto; congruence.
+  - rewrite E10. exact Hq.
+  - rewrite E3, E10. intros Hpf. apply Hq0. congruence.
+  - unfold auth_obj_ok in *. rewrite E6, E4, E7. unfold opts_reset in *. rewrite E8, E9. exact Ha.
+  - unfold done_ok, granted_r in *. rewrite E7, E6, E11, E12, E4, E8, E9. exact Hdn.
+Qed.
+
+Lemma run_auth_inv D s r aid u ce a :
+  Base D s r -> auth s = Some a -> a_id a = aid -> a_user a = username s -> u = username s ->
+  (a_kbd a = true -> e_ko (snd ce) = None /\ e_co (snd ce) = None) ->
+  opts_reset s -> complete s = false -> eff_ok D u (snd ce) ->
+  Inv D (run_auth w aid u ce s).
+Proof.
+  intros HB Hau Hid Hus Hu Hkb Hor Hco Heff. unfold run_auth.
+  destruct (is_async w (fst ce)).
+  - eapply base_add_auth with (s := s) (t := Some (next_fid s)) (k := KAuthDone aid u (snd ce)); try reflexivity; eauto.
+    exists a. cbn. subst aid. split; [assumption|]. split; [reflexivity|]. split; [assumption|]. split; [assumption|].
+    split; [assumption|]. split; [assumption|]. split; assumption.
+  - subst u. eapply apply_effect_inv; eauto.
+Qed.
+
+
+Lemma kbd_start_noopts u body : e_ko (snd (kbd_start w u body)) = None /\ e_co (snd (kbd_start w u body)) = None.
+Proof.
+  unfold kbd_start. destruct (get_string body) as [[lang r1]|]; [|split; reflexivity].
+  destruct (get_string r1) as [[subm [|x r2]]|]; try (split; reflexivity).
+  destruct (is_ascii lang && utf8 w subm); [|split; reflexivity].
+  destruct (kbd_mode w); split; reflexivity.
+Qed.
+
+Lemma kbd_validate_noopts u rs :
+  e_ko (snd (kbd_validate w u rs)) = None /\ e_co (snd (kbd_validate w u rs)) = None.
+Proof.
+  unfold kbd_validate. destruct (kbd_mode w); try (split; reflexivity).
+  destruct rs as [|r [|r2 rs]]; split; reflexivity.
+Qed.
+
+Lemma mkind_eqb_true a b : mkind_eqb a b = true -> a = b.
+Proof. destruct a, b; cbn; congruence. Qed.
+
+Lemma run_authcont_inv D s r k :
+  Base D s r -> auth_ok D s k -> Inv D (run_kont w sid true k s).
+Proof.
+  intros HB (a & Hau & Hown & Hus & Hor & Hco & Hk).
+  pose proof HB as (Hd & Hp & Hak & Hc & Hq & Hq0 & Ha & Hdn).
+  destruct k; try (exfalso; exact Hk); cbn [run_kont]; cbn in Hown; inversion Hown as [Hid].
+  - (* KAuthStart *)
+    destruct Hk as (Hu & Hin & Hhd & Hsup & Hkbd).
+    eapply run_auth_inv; eauto.
+    + intros Hkb. rewrite Hkb in Hkbd. symmetry in Hkbd. apply mkind_eqb_true in Hkbd. subst k.
+      cbn [auth_start]. apply kbd_start_noopts.
+    + intros Hres. exists full. split; [exact Hin|].
+      destruct Hak as [Hak|[Hak1 Hak2]].
+      * rewrite Hak in *. rewrite <- Hu in *.
+        apply auth_start_grants with (src := Some u); auto.
+      * rewrite Hak1 in *. rewrite <- Hu in Hak2.
+        apply auth_start_grants with (src := None); auto.
+  - (* KAuthDone *)
+    destruct Hk as (Hu & Heff & Hkb). subst u. eapply apply_effect_inv; eauto.
+  - (* KKbdValidate *)
+    destruct Hk as (Hu & Hkb & resp & Hin & Hresp).
+    eapply run_auth_inv; eauto.
+    + intros _. apply kbd_validate_noopts.
+    + intros Hres.
+      unfold auth_obj_ok in Ha. rewrite Hau in Ha. destruct Ha as (_ & _ & Ha). destruct (Ha Hkb) as [Hreq _].
+      rewrite <- Hu in Hreq.
+      destruct (kbd_validate_grants D u rs resp Hreq Hin Hresp Hres) as (p & Hp1 & Hp2).
+      exists p. split; [exact Hp1|].
+      destruct (kbd_validate_noopts u rs) as [K1 K2]. unfold restr_of. rewrite K1, K2. exact Hp2.
+Qed.
+
+
+(* ---- the invariant only looks at some fields ---- *)
+Definition same_core (s s' : st) : Prop :=
+  username s' = username s /\ complete s' = complete s /\ dead s' = dead s /\ auth s' = auth s /\
+  conts s' = conts s /\ ak_user s' = ak_user s /\ key_opts s' = key_opts s /\ cert_opts s' = cert_opts s /\
+  paused s' = paused s /\ inq s' = inq s /\ completed_as s' = completed_as s /\
+  count_success (out s') = count_success (out s).
+
+Lemma ak_ok_core s s' : username s' = username s -> ak_user s' = ak_user s -> ak_ok s -> ak_ok s'.
+Proof. unfold ak_ok. intros -> ->. auto. Qed.
+
+Lemma opts_reset_core s s' : key_opts s' = key_opts s -> cert_opts s' = cert_opts s -> opts_reset s -> opts_reset s'.
+Proof. unfold opts_reset. intros -> ->. auto. Qed.
+
+Lemma auth_ok_core D s s' k :
+  username s' = username s -> complete s' = complete s -> auth s' = auth s -> ak_user s' = ak_user s ->
+  key_opts s' = key_opts s -> cert_opts s' = cert_opts s -> auth_ok D s k -> auth_ok D s' k.
+Proof.
+  intros E1 E2 E3 E4 E5 E6 (a & H1 & H2 & H3 & H4 & H5 & H6). exists a.
+  split; [congruence|]. split; [exact H2|]. split; [congruence|].
+  split; [eapply opts_reset_core; eauto|]. split; [congruence|].
+  destruct k; try exact H6; rewrite ?E1, ?E4; exact H6.
+Qed.
+
+Lemma fin_ok_core D s s' k :
+  username s' = username s -> ak_user s' = ak_user s -> fin_ok D s k -> fin_ok D s' k.
+Proof.
+  intros E1 E2. destruct k; cbn; try tauto.
+  - intros (H1 & H2 & H3). rewrite E1. split; [auto|]. split; [auto|]. intros Hb. eapply ak_ok_core; eauto.
+  - rewrite E1. auto.
+  - rewrite E1, E2. auto.
+Qed.
+
+Lemma auth_obj_ok_core D s s' :
+  username s' = username s -> complete s' = complete s -> auth s' = auth s ->
+  key_opts s' = key_opts s -> cert_opts s' = cert_opts s -> auth_obj_ok D s -> auth_obj_ok D s'.
+Proof.
+  intros E1 E2 E3 E4 E5. unfold auth_obj_ok, opts_reset. rewrite E1, E2, E3, E4, E5. auto.
+Qed.
+
+Lemma done_ok_core D s s' :
+  username s' = username s -> complete s' = complete s -> auth s' = auth s ->
+  key_opts s' = key_opts s -> cert_opts s' = cert_opts s -> completed_as s' = completed_as s ->
+  count_success (out s') = count_success (out s) -> done_ok D s -> done_ok D s'.
+Proof.
+  intros E1 E2 E3 E4 E5 E6 E7. unfold done_ok, granted_r. rewrite E1, E2, E3, E4, E5, E6, E7. auto.
+Qed.
+
+Lemma Inv_same_core D s s' : same_core s s' -> Inv D s -> Inv D s'.
+Proof.
+  intros (E1 & E2 & E3 & E4 & E5 & E6 & E7 & E8 & E9 & E10 & E11 & E12) [Hs Hq Hq0 Ha Hd]. split.
+  - destruct Hs as [(H1 & H2 & H3 & H4)|[Hl Hs]].
+    + left. repeat split; congruence.
+    + right. split; [congruence|]. destruct Hs.
+      * apply ShIdle0; try congruence. eapply ak_ok_core; eauto.
+      * eapply ShIdle1; try congruence; [eapply ak_ok_core; eauto | rewrite E5; eassumption | eapply auth_ok_core; eauto].
+      * eapply ShFin; try congruence; [eapply opts_reset_core; eauto | rewrite E5; eassumption | eapply fin_ok_core; eauto].
+      * apply ShRes0; try congruence. eapply ak_ok_core; eauto.
+      * eapply ShRes1; try congruence; [eapply ak_ok_core; eauto | rewrite E5; eassumption | eapply auth_ok_core; eauto].
+      * eapply ShRes2; try congruence; [eapply ak_ok_core; eauto | rewrite E5; eassumption | eapply auth_ok_core; eauto].
+  - rewrite E10. exact Hq.
+  - rewrite E9, E10. exact Hq0.
+  - eapply auth_obj_ok_core; eauto.
+  - eapply done_ok_core; eauto.
+Qed.
+
+
+(* ---- the _finish_userauth task ---- *)
+Definition FinBase (D : list bytes) (s : st) : Prop :=
+  dead s = false /\ paused s = true /\ auth s = None /\ complete s = false /\ opts_reset s /\
+  conts s = [] /\ Forall (fun p => In p D) (inq s) /\ done_ok D s.
+
+Lemma done_ok_false D s : complete s = false -> done_ok D s -> count_success (out s) = 0%nat /\ completed_as s = [].
+Proof. intros H. unfold done_ok. rewrite H. auto. Qed.
+
+Lemma lookup_resume_inv D s mk full body :
+  FinBase D s -> ak_ok s -> In full D -> head_ok full (username s) mk body ->
+  Inv D (fin_done true (lookup w mk full body s)).
+Proof.
+  intros (Hd & Hp & Hau & Hco & Hor & Hc & Hq & Hdn) Hak Hin Hhd.
+  destruct (done_ok_false D s Hco Hdn) as [Hcs Hca].
+  unfold fin_done, lookup, cancel_auth. rewrite Hau.
+  destruct (supported w (ak_of w (ak_user s)) mk) eqn:Hsup.
+  - split.
+    + right. split; [cbn; exact Hd|].
+      eapply ShRes1 with (t := None) (k := KAuthStart (next_aid s) (username s) mk full body).
+      * cbn. exact Hp.
+      * unfold ak_ok in *. cbn. exact Hak.
+      * cbn. rewrite Hc. reflexivity.
+      * exists (mkAuth (next_aid s) (username s) (mkind_eqb mk MKbd)). cbn.
+        split; [reflexivity|]. split; [reflexivity|]. split; [reflexivity|]. split; [exact Hor|].
+        split; [exact Hco|]. split; [reflexivity|]. split; [exact Hin|]. split; [exact Hhd|].
+        split; [exact Hsup|reflexivity].
+    + cbn. exact Hq.
+    + cbn. rewrite Hp. discriminate.
+    + unfold auth_obj_ok. cbn. split; [reflexivity|]. split; [exact Hco|]. intros Hk.
+      apply mkind_eqb_true in Hk. subst mk. split; [|exact Hor]. exists full, body. split; assumption.
+    + unfold done_ok. cbn. rewrite Hco. auto.
+  - apply base_inv with (r := true). unfold do_failure, emit, spawn, push. base_split.
+    + cbn. exact Hd.
+    + cbn. exact Hp.
+    + unfold ak_ok in *. cbn. exact Hak.
+    + cbn. rewrite Hc. reflexivity.
+    + cbn. exact Hq.
+    + discriminate.
+    + unfold auth_obj_ok. cbn. exact I.
+    + unfold done_ok. cbn. rewrite Hco. auto.
+Qed.
+
+Lemma success_resume_inv D s mk full body :
+  FinBase D s -> ak_ok s -> In full D -> head_ok full (username s) mk body ->
+  needs_auth w (username s) = false ->
+  Inv D (fin_done true (do_success s)).
+Proof.
+  intros (Hd & Hp & Hau & Hco & Hor & Hc & Hq & Hdn) Hak Hin Hhd Hna.
+  destruct (done_ok_false D s Hco Hdn) as [Hcs Hca].
+  apply base_inv with (r := true). unfold fin_done, do_success, emit, spawn, push. base_split.
+  - cbn. exact Hd.
+  - cbn. exact Hp.
+  - unfold ak_ok in *. cbn. exact Hak.
+  - cbn. rewrite Hc. reflexivity.
+  - cbn. exact Hq.
+  - discriminate.
+  - unfold auth_obj_ok. cbn. exact I.
+  - unfold done_ok. cbn. rewrite Hcs, Hca. split; [reflexivity|]. split; [|split; reflexivity].
+    exists full. split; [exact Hin|]. cbn. destruct Hor as [-> ->].
+    eapply noauth_grants; eauto.
+Qed.
+
+Lemma run_begun_inv D s mk full body :
+  FinBase D s -> ak_ok s -> In full D -> head_ok full (username s) mk body ->
+  Inv D (run_begun w true (username s) mk full body s).
+Proof.
+  intros HB Hak Hin Hhd. unfold run_begun.
+  destruct (needs_auth w (username s)) eqn:Hn.
+  - apply lookup_resume_inv; assumption.
+  - eapply success_resume_inv; eassumption.
+Qed.
+
+Lemma fin_block_inv D s k :
+  FinBase D s -> fin_ok D s k -> Inv D (block k s).
+Proof.
+  intros (Hd & Hp & Hau & Hco & Hor & Hc & Hq & Hdn) Hk. split.
+  - right. split; [cbn; exact Hd|].
+    eapply ShFin with (t := Some (next_fid s)) (k := k); cbn; auto.
+    all: try (rewrite Hc; reflexivity).
+    all: try (eapply fin_ok_core; [| |exact Hk]; reflexivity).
+  - cbn. exact Hq.
+  - cbn. rewrite Hp. discriminate.
+  - unfold auth_obj_ok. cbn. rewrite Hau. exact I.
+  - eapply done_ok_core; [| | | | | | |exact Hdn]; reflexivity.
+Qed.
+
+Lemma run_fin_inv D s k :
+  FinBase D s -> fin_ok D s k -> Inv D (run_kont w sid true k s).
+Proof.
+  intros HB Hk. pose proof HB as (Hd & Hp & Hau & Hco & Hor & Hc & Hq & Hdn).
+  destruct k; try (exfalso; exact Hk); cbn [run_kont].
+  - (* KFin *)
+    destruct Hk as (Hin & Hhd & Hba). destruct ba.
+    + apply fin_block_inv; [exact HB|]. cbn. auto.
+    + apply lookup_resume_inv; auto.
+  - (* KFinReloaded *)
+    destruct Hk as (Hin & Hhd).
+    set (s1 := set_begun (username s :: begun s) (set_ak_user (Some (username s)) s)).
+    assert (HB1 : FinBase D s1).
+    { unfold s1. unfold FinBase. cbn. repeat (split; [assumption|]).
+      eapply done_ok_core; [| | | | | | |exact Hdn]; reflexivity. }
+    assert (Hak1 : ak_ok s1) by (left; reflexivity).
+    destruct (async_begin w).
+    + apply fin_block_inv; [exact HB1|]. cbn. auto.
+    + change (username s) with (username s1). apply run_begun_inv; auto.
+  - (* KFinBegun *)
+    destruct Hk as (Has & Hak & Hin & Hhd). subst asked.
+    apply run_begun_inv; auto. left. exact Hak.
+Qed.
+
 End WithWorld.
